@@ -158,6 +158,13 @@ def check_layer_ab(pid, tier, seed, rep):
                               "%s %s: input-free Async providers cannot all be inside at once (a wait or another such provider precedes one of them in its thread)" % (r["pkg"], r["name"]))
     viol = viol or [1] * nmodel
     unchecked = [r for r in S["records"] if r.get("checker_code")]
+    if D.get("trace_failures") and not viol:
+        tag, code = D["trace_failures"][0]
+        what = {1: "the event log is not a run of the semantics", 2: "the injector's outcome differs from the semantics' outcome", 3: "the leaked-goroutine verdict differs", -1: "cases do not evaluate in Coq"}.get(code, "?")
+        rep.violation("sem-%s" % re.sub(r"[^A-Za-z0-9]", "_", tag), dict(correspondence="dynamic correspondence D: real event logs replayed through Sem2.step (coq/Check.v: trace_code)", scenario=tag, code=code,
+                                                                          failures=D["trace_failures"][:10], log=D.get("trace_log", "")),
+                      "semantics and real execution disagree on %d of %d executions (%s), e.g. %s" % (len(D["trace_failures"]), D["traces_replayed"], what, tag), True)
+        viol = [1]
     if (bad or unchecked) and not viol:
         if not bad:
             bad = [(unchecked[0], ["observed program fails the verified checker (code %d): Layer A's hypotheses are not established" % unchecked[0]["checker_code"]])]
@@ -168,7 +175,7 @@ def check_layer_ab(pid, tier, seed, rep):
                                                    disagreeing_cases=len(bad), observed_programs_failing_verified_checker=[(x["pkg"], x["name"], x["checker_code"]) for x in unchecked][:10],
                                                    dynamic_search="%d scenarios on %d injectors found no failing execution" % (D["scenarios"], D["injectors"])),
                       "model/implementation disagreement on %d declaration(s), e.g. %s %s: %s" % (len(bad), r["pkg"], r["name"], why[0][:200]), True)
-    cov.update(traces_validated_against_impl=D["scenarios"], scenario_kinds=D["kinds"], injectors_run=D["injectors"],
+    cov.update(traces_validated_against_impl=D.get("traces_replayed", 0), executions=D["scenarios"], scenario_kinds=D["kinds"], injectors_run=D["injectors"],
                input_distribution=shape_stats(S), trusted_base=TRUSTED,
                samples=[dict(decl=S["case_text"][k][0][:400], observed=S["case_text"][k][1][:400]) for k in list(S["case_text"])[:2]] + D["samples"][:2],
                known_findings_reproduced=sorted({f["verdict"][6:] for f in known}))
